@@ -54,6 +54,7 @@ def run(chk):
     chk.queue([serialprogs.tofile_program(rng) for _ in range(2000 if thorough else 500)], 'random-tofile-chunks')
     chk.queue([serialprogs.tofile_program(rng, lsb0=True) for _ in range(1000 if thorough else 250)], 'random-tofile-chunks-lsb0')
     chk.queue([serialprogs.window_program(rng, lsb0=True) for _ in range(2000 if thorough else 500)], 'random-windows-lsb0')
+    chk.queue([serialprogs.large_source_window_program(rng) for _ in range(400 if thorough else 80)], 'windows-over-large-sources')
     chk.flush()
     if thorough:
         from harness import bigfile
